@@ -93,7 +93,7 @@ func init() {
 	fw.Register(&fw.Check{
 		ID:    "C12",
 		Title: "All evaluation views partition the same total",
-		Rule: "files of 2 (quick: all ordered pairs) and 3 (thorough: all ordered triples) records dated from a 59-date calendar-boundary set (week-year edges of 52/53-week years, leap days, month/quarter/year ends, years 0000/0001/0999/1000/9998/9999), " +
+		Rule: "files of 2 (quick: all ordered pairs) and 3 (thorough: all ordered triples) records dated from a " + fmt.Sprint(len(c12Dates())) + "-date calendar-boundary set (week-year edges of 52/53-week years, leap days, month/quarter/year ends, years 0000/0001/0999/1000/9998/9999), " +
 			"in file order as enumerated (unsorted, descending and duplicate dates occur); record i carries a total of 2^i minutes (so a row total identifies exactly which records it contains), a should-total and, in a variant, a negative total; " +
 			"x aggregation {day, week, month, quarter, year} x {plain, --fill (span <= 800 days), --diff, --fill --diff} x date filter {none, --since/--until, --period}; plus 80 today/--now documents. " +
 			"A case = (file, report flags); non-trivial = at least one row; distinct by hash(text, flags).",
